@@ -95,6 +95,29 @@ Proof.
   split; [exact B1|lia].
 Qed.
 
+(* exact byte counts: what write() uses, and get_length as the page round-up of exactly that *)
+Lemma align_up_lt A n : 0 < A -> align_up A n < n + A.
+Proof.
+  intro HA. unfold align_up. pose proof (N.div_mod (n + A - 1) A ltac:(lia)) as D.
+  pose proof (N.mod_lt (n + A - 1) A ltac:(lia)) as M.
+  remember ((n + A - 1) / A) as q. remember ((n + A - 1) mod A) as r. clear Heqq Heqr. nia.
+Qed.
+Lemma align_up_mult A n : 0 < A -> align_up A n mod A = 0.
+Proof. intro HA. unfold align_up. apply N.mod_mul. lia. Qed.
+Lemma hw_write_used_exact t base :
+  cursor_end t base - base = SHMEM_HEADER_LENGTH + sum_aligned (sizes ksize t).
+Proof. rewrite cursor_end_eq. lia. Qed.
+Lemma hw_get_length_exact sizes :
+  let need := SIZEOF_STRUCT_HWLOC_SHMEM_HEADER + sum_aligned sizes in
+  get_length sizes = align_up SHMEM_PAGESIZE need /\
+  need <= get_length sizes < need + SHMEM_PAGESIZE /\ get_length sizes mod SHMEM_PAGESIZE = 0 /\
+  need = SHMEM_HEADER_LENGTH + sum_aligned sizes.
+Proof.
+  intro need. assert (HP : 0 < SHMEM_PAGESIZE) by (vm_compute; reflexivity).
+  unfold get_length. fold need. split; [reflexivity|]. split; [split; [apply align_up_ge; exact HP|apply align_up_lt; exact HP]|].
+  split; [apply align_up_mult; exact HP|]. unfold need. rewrite header_length_is_sizeof. reflexivity.
+Qed.
+
 (* the counting pass: whatever allocator hands out the blocks, the length accumulated is sum_aligned (sizes t) *)
 Lemma hw_counting_pass al t (s : rstate al) :
   sum_aligned (trace al (snd (assign ksize al t s))) = sum_aligned (trace al s) + sum_aligned (sizes ksize t).
